@@ -1,6 +1,12 @@
+pub mod c14;
+pub mod checks;
 pub mod history;
+pub mod minimise;
+pub mod parseback;
 pub mod parties;
+pub mod rules;
 pub mod runner;
+pub mod scenario;
 
 #[allow(non_snake_case, non_camel_case_types, dead_code, unused_imports, clippy::all)]
 pub mod generated {
